@@ -74,6 +74,12 @@ claimed.update({
    text="Differential: every history of one or two operations over ten operations (thorough: three), as a burst and step by step, with Events capacity default,0,1,2,4,...,65536; single bursts additionally with the consumer attached only afterwards (absorb clause: a buffer that can hold the history leaves nothing in the kernel queue). Runs with equal read points must deliver byte-identical sequences; every run must match the reference model; cap(Events) must equal the request. Lagging consumers on buffered Watchers (every step read, nothing received until the end) for all triples of six operations x capacities 1,2,8,64. Other Watchers created, used and closed at every position of three histories, incl. API calls on a closed Watcher whose descriptor number has been recycled (synchronous close).",
    note="Other Watchers live in the same process.", technique="exhaustive differential enumeration over configurations on the real code"),
 })
+claimed.update({
+ "C07": dict(engine=E1, design="5 (C07), 3",
+   text="Every schedule up to preemption bound 2 (1 for two-step filesystem threads in the quick tier) of ~900 closed programs {initial watch set} x {two API threads with one or two calls each from Add/Remove/WatchList/Close over paths forced to collide: one directory in two spellings, a file and its symlink} x {filesystem thread: none, rm f, rm+recreate f, mv f g, create+delete in the watched directory}. Per execution: (i) lockset assertions inserted by vinst in front of every statement touching the watch tables or the cookie ring (state guarded by a single lock: equivalent to race freedom on it), (ii) no panic in any thread, (iii) no call left blocked, (iv) the call/return history with scheduler time stamps and filesystem steps as zero-width operations is checked for linearizability against a nondeterministic sequential watch-set model with porcupine v1.3.0 (zombie entries of deleted/renamed files are the nondeterminism; calls overlapping a Close may fail with any error), (v) WatchList never shows a duplicate or a never-added path.",
+   note="Races on state outside the lockset specification (vinst.DefaultGuards) and weak-memory effects are not decided by this check; the Go race detector cannot be combined with the cooperative scheduler (hand-offs are happens-before edges).",
+   technique="stateless model checking: preemption-bounded schedule enumeration of the real code with lockset assertions and a porcupine linearizability check per execution"),
+})
 NA_REASON = "check not built yet (work in progress; DESIGN.md section 5 gives the planned decision procedure)"
 
 def main():
@@ -96,7 +102,7 @@ def main():
          "kind_free_text": "explicit-state BFS over operation sequences: successors by replay on fresh kernel objects, canonical-state hashing, reference model fed by seam syscalls and raw kernel reads"},
         {"name": "E2-events", "path": "harness/checks_events.go harness/seq.go harness/ideal.go", "serves_properties": ["C01", "C02", "C03", "C08", "C10", "C11", "C14"],
          "kind_free_text": "BFS over histories x batchings, exhaustive name-shape / buffer-boundary / injected-record enumeration, differential runs over configurations; reference model over the raw kernel stream"},
-        {"name": "E1", "path": "engine/vinst engine/vsched engine/vsys harness", "serves_properties": sorted(k for k, v in claimed.items() if v["engine"] == E1),
+        {"name": "E1", "path": "engine/vinst engine/vsched engine/vsys harness", "serves_properties": sorted(k for k, v in claimed.items() if v["engine"].startswith("E1")),
          "kind_free_text": "source-to-source instrumentation of the working tree + cooperative scheduler + preemption-bounded DFS (iterative context bounding), 16 worker processes"},
       ],
       "checks": [],
